@@ -46,17 +46,10 @@ from renormalizer.utils import Quantity
 ALGOS = ("Hopcroft-Karp", "Hungarian")
 
 
-MAX_PER_SIGNATURE = 3
-
-
 def report(run, signature, replay):
-    """run.violation, keeping at most MAX_PER_SIGNATURE replay objects per signature (the exhaustive
-    enumeration hits the same defect on thousands of graphs); every hit is still counted"""
-    run.count("violation-hits:" + signature)
-    seen = run.__dict__.setdefault("_c20_per_signature", {})
-    seen[signature] = seen.get(signature, 0) + 1
-    if seen[signature] <= MAX_PER_SIGNATURE:
-        run.violation(signature, replay)
+    """run.violation keeps one replay per signature and counts every further hit (the exhaustive
+    enumeration meets the same defect on many graphs)"""
+    run.violation(signature, replay)
 
 
 # ------------------------------------------------------------------------------------ part A
@@ -164,22 +157,33 @@ def certified_min_cover(A):
 
 
 def part_a(run, rng, quick):
-    nmax = 3 if quick else 4
-    shapes = [(a, b) for a in range(1, nmax + 1) for b in range(1, nmax + 1)]
+    # (nU, nV, number of graphs judged; None = every graph of that shape)
+    if quick:
+        shapes = [(a, b, None) for a in range(1, 5) for b in range(1, 5) if (a, b) != (4, 4)] + [(4, 4, 4000)]
+    else:
+        shapes = [(a, b, None) for a in range(1, 5) for b in range(1, 5)]
+        shapes += [(5, 1, None), (1, 5, None), (5, 2, None), (2, 5, None), (5, 3, None), (3, 5, None),
+                   (5, 4, 20000), (4, 5, 20000)]
     n_eval = 0
     distinct = 0
-    for nU, nV in shapes:
+    for nU, nV, nsel in shapes:
         best = all_min_covers(nU, nV)
         ngraph = 1 << (nU * nV)
-        for g in range(ngraph):
+        if nsel is None:
+            todo = range(ngraph)
+            tag = "exhaustive"
+        else:
+            todo = [int(g) for g in rng.choice(ngraph, size=nsel, replace=False)]
+            tag = "sampled"
+        for g in todo:
             A = adj_from_bits(g, nU, nV)
             bg = lists_from(A)
             for algo in ALGOS:
-                judge_cover(run, A, bg, algo, best[g], "exhaustive")
+                judge_cover(run, A, bg, algo, best[g], tag)
                 n_eval += 1
             if g:
                 distinct += 1
-            run.count(f"exhaustive:{nU}x{nV}")
+        run.count(f"{tag}:{nU}x{nV}", len(todo))
         # the same shape with permuted neighbour lists / numpy index arrays (what _decompose_graph passes)
         nsamp = min(ngraph, 150 if quick else 1500)
         for g in rng.choice(ngraph, size=nsamp, replace=False):
@@ -188,11 +192,11 @@ def part_a(run, rng, quick):
             style = "ndarray" if rng.random() < 0.5 else "list"
             bg = lists_from(A, rng, style)
             for algo in ALGOS:
-                judge_cover(run, A, bg, algo, best[g], "exhaustive-shuffled")
+                judge_cover(run, A, bg, algo, best[g], "shuffled-neighbour-lists")
                 n_eval += 1
             run.count(f"shuffled:{style}")
     # random larger graphs
-    nrand = 250 if quick else 6000
+    nrand = 1200 if quick else 15000
     for it in range(nrand):
         nU = int(rng.integers(1, 13))
         nV = int(rng.integers(1, 13))
@@ -229,30 +233,7 @@ def part_a(run, rng, quick):
 
 
 # ------------------------------------------------------------------------------------ part B
-def term_rows(bspecs, terms, offset):
-    """the deduplicated symbolic term table, built independently of the library:
-    row = tuple over sites of (symbols, dofs) or None for identity; value = summed factor.
-    `Op("I", first dof of the site)` is the library's own identity symbol and is mapped to None."""
-    n = len(bspecs)
-    rows = {}
-    for t in terms:
-        sp = L.site_products(bspecs, t)
-        key = []
-        for i in range(n):
-            if i not in sp:
-                key.append(None)
-                continue
-            syms, dofs = sp[i]
-            if syms == ["I"] and dofs == [L.site_dofs(bspecs[i])[0]]:
-                key.append(None)
-            else:
-                key.append((tuple(syms), repr(dofs)))
-        key = tuple(key)
-        rows[key] = rows.get(key, 0) + L.term_factor(t)
-    if offset != 0:
-        key = tuple([None] * n)
-        rows[key] = rows.get(key, 0) - offset
-    return rows
+term_rows = L.term_rows
 
 
 def cut_matrices(rows_kept, n):
@@ -335,7 +316,7 @@ def gen_table_case(rng, quick):
 
 
 def part_b(run, rng, quick, deadline):
-    ncase = 260 if quick else 5000
+    ncase = 900 if quick else 12000
     n_eval = 0
     distinct = 0
     seen = set()
